@@ -106,7 +106,7 @@ func (g *syntaxGen) block(ind string, d int) string {
 
 func (g *syntaxGen) stmt(ind string, d int) string {
 	e := func() string { return g.expr(g.n("ed", 0, 3)) }
-	k := g.n("sform", 0, 24)
+	k := g.n("sform", 0, 26)
 	if d <= 0 && k >= 8 && k <= 16 {
 		k = 0
 	}
@@ -167,6 +167,15 @@ func (g *syntaxGen) stmt(ind string, d int) string {
 		return ind + "x.y[i], *p = " + e() + ", " + e() + "\n"
 	case 23:
 		return ind + "func() {\n" + g.block(in, d-1) + ind + "}()\n"
+	case 25, 26:
+		// a composite literal as the whole header expression: the parentheses are part of the tree and
+		// must survive printing, whatever the literal's type name looks like
+		lit := g.pick("hlit", []string{"T{}", "pkg.T{1, 2}", "G[int]{}", "pkg.G[int, string]{a: 1}", "[]int{1}", "struct{ a int }{}", "map[string]T{}", "a.b.T{x: 1}"})
+		head := g.pick("hform", []string{"for range (%s) {", "switch (%s) {", "if x := (%s); x.ok {", "for _, v := range (%s) {", "if (%s).ok {", "for (%s).next() {", "switch x := (%s); x {", "if (%s == x) {", "for (x != %s) {"})
+		if d <= 0 || strings.HasPrefix(head, "switch") {
+			return ind + fmt.Sprintf(head, lit) + "\n" + ind + "}\n"
+		}
+		return ind + fmt.Sprintf(head, lit) + "\n" + g.block(in, d-1) + ind + "}\n"
 	default:
 		return ind + "_ = " + e() + "\n"
 	}
